@@ -130,24 +130,36 @@ Definition signal_state (s : state) (n : Z) : state :=
 (** candidate_check_pair_free: off the triggered-check queue, then freed *)
 Definition pair_free (s : state) (p : Z) : state := free_pair (set_trig s (remove1 p (trig s))) p.
 
-(** priv_prune_pending_checks: returns the state and in_progress + triggered_check.  Loop over a snapshot of the list: only the
-    node of the current pair is ever unlinked. *)
-Definition prune_pending_step (priority : Z) (acc : state * list Z * Z) (p : Z) : state * list Z * Z :=
-  let '(st, kept, n) := acc in
-  match find_pair (pairs st) p with
-  | None => (flt st 1, kept ++ [p], n)
-  | Some pr =>
-      if negb (p_comp pr =? cid st) then (st, kept ++ [p], n)
-      else if memb p (trig st) && negb (p_state pr =? 2) then
-        (if p_prio pr <? priority then (pair_free st p, kept, n) else (st, kept ++ [p], n + 1))
-      else if (p_state pr =? 5) || (p_state pr =? 1) then (pair_free st p, kept, n)
-      else if p_state pr =? 2 then
-        (if p_prio pr <? priority then (set_trig st (remove1 p (trig st)), kept ++ [p], n) else (st, kept ++ [p], n + 1))
-      else (st, kept ++ [p], n)
-  end.
+(** the shape shared by the two loops that walk stream->conncheck_list and unlink pairs:
+    "for (i = list; i;) { p = i->data; next = i->next; ...decide...; i = next; }" where the body either frees the pair and unlinks its
+    node, keeps it, or keeps it and takes it off the triggered-check queue.  [a] carries the counters of the C loop.  Only the node of
+    the current pair is ever unlinked, so the walk is over a snapshot of the list. *)
+Inductive action := AFree | AKeep | AUntrig | AFault.
+Definition pair_loop {A} (step : state -> pair -> A -> action * A) (l : list Z) (s : state) (a0 : A) : state * list Z * A :=
+  fold_left (fun (acc : state * list Z * A) p =>
+     let '(st, kept, a) := acc in
+     match find_pair (pairs st) p with
+     | None => (flt st 1, kept ++ [p], a)
+     | Some pr =>
+         let '(act, a') := step st pr a in
+         match act with
+         | AFree => (pair_free st p, kept, a')
+         | AKeep => (st, kept ++ [p], a')
+         | AUntrig => (set_trig st (remove1 p (trig st)), kept ++ [p], a')
+         | AFault => (flt st 1, kept ++ [p], a')
+         end
+     end) l (s, [], a0).
+
+(** priv_prune_pending_checks: returns the state and in_progress + triggered_check *)
+Definition prune_pending_act (priority : Z) (st : state) (pr : pair) (n : Z) : action * Z :=
+  if negb (p_comp pr =? cid st) then (AKeep, n)
+  else if memb (p_id pr) (trig st) && negb (p_state pr =? 2) then (if p_prio pr <? priority then (AFree, n) else (AKeep, n + 1))
+  else if (p_state pr =? 5) || (p_state pr =? 1) then (AFree, n)
+  else if p_state pr =? 2 then (if p_prio pr <? priority then (AUntrig, n) else (AKeep, n + 1))
+  else (AKeep, n).
 Definition prune_pending_checks (s : state) : state * Z :=
   if sel_prio s >? 0 then
-    let '(st, kept, n) := fold_left (prune_pending_step (sel_prio s)) (clist s) (s, [], 0) in (set_clist st kept, n)
+    let '(st, kept, n) := pair_loop (prune_pending_act (sel_prio s)) (clist s) s 0 in (set_clist st kept, n)
   else (flt s 2, 0).      (* g_assert (priority > 0) *)
 
 Definition count_nominated (s : state) : state * Z :=
@@ -179,19 +191,15 @@ Definition pair_touches (s : state) (pr : pair) (sk : Z) : option bool :=
            | Some rc => Some (opt_is (c_sock rc) sk || (p_sock pr =? sk))
            end
   end.
-(** acc = (state, kept pairs, pair_failed, p_count, p_nominated) *)
-Definition prune_socket_step (sk : Z) (acc : state * list Z * bool * Z * Z) (p : Z) : state * list Z * bool * Z * Z :=
-  let '(st, kept, failed, cnt, nom) := acc in
-  match find_pair (pairs st) p with
-  | None => (flt st 1, kept ++ [p], failed, cnt, nom)
-  | Some pr =>
-      if negb (p_comp pr =? cid st) then (st, kept ++ [p], failed, cnt, nom)
-      else match pair_touches st pr sk with
-           | None => (flt st 1, kept ++ [p], failed, cnt, nom)
-           | Some true => (pair_free st p, kept, true, cnt, nom)          (* candidate_check_pair_fail; _free; delete_link *)
-           | Some false => (st, kept ++ [p], failed, cnt + 1, if p_nominated pr then nom + 1 else nom)
-           end
-  end.
+(** the counters: (pair_failed, p_count, p_nominated) *)
+Definition prune_socket_act (sk : Z) (st : state) (pr : pair) (a : bool * Z * Z) : action * (bool * Z * Z) :=
+  let '(failed, cnt, nom) := a in
+  if negb (p_comp pr =? cid st) then (AKeep, a)
+  else match pair_touches st pr sk with
+       | None => (AFault, a)
+       | Some true => (AFree, (true, cnt, nom))          (* candidate_check_pair_fail; candidate_check_pair_free; delete_link *)
+       | Some false => (AKeep, (failed, cnt + 1, if p_nominated pr then nom + 1 else nom))
+       end.
 Definition conn_check_prune_socket (s : state) (sk : Z) : state :=
   let s0 :=
     match sel_l s with
@@ -203,7 +211,7 @@ Definition conn_check_prune_socket (s : state) (sk : Z) : state :=
                              else s
                 end
     end in
-  let '(st, kept, failed, cnt, nom) := fold_left (prune_socket_step sk) (clist s0) (s0, [], false, 0, 0) in
+  let '(st, kept, (failed, cnt, nom)) := pair_loop (prune_socket_act sk) (clist s0) s0 (false, 0, 0) in
   let s1 := set_clist st kept in
   if failed then
     let s2 := if cnt =? 0 then signal_state s1 5
